@@ -311,8 +311,54 @@ var (
 	spellRight     = []string{"exact", "prefixed", "pos1", "pos2", "prefixed-pos1", "noncanonical-bits", "trailing-newline", "crlf-inside"}
 	spellWrong     = []string{"other-server", "prefixed-other", "bitflip-lo", "bitflip-hi", "bitflip-last", "zero", "cert-hash"}
 	spellMalformed = []string{"double-prefix", "no-padding", "prefixed-no-padding", "urlsafe", "len31", "len33", "prefix-only", "garbage", "trailing-space", "leading-space", "hex", "upper-prefix", "single-slash-prefix", "prefixed-len31"}
-	spellAll       = append(append(append([]string{"unpinned"}, spellRight...), spellWrong...), spellMalformed...)
+	// whitespace-only strings (with or without the prefix in front): configured, hence
+	// not "no fingerprint", and certainly not the base64 of 32 bytes
+	spellBlank = []string{"blank-space", "blank-tab", "blank-lf", "blank-cr", "blank-crlf", "blank-nbsp", "blank-spaces", "blank-mixed", "prefix-space", "prefix-lf", "prefix-mixed"}
+	// a pin with whitespace around it; what the oracle makes of each follows from the
+	// string alone (CR/LF are skipped by RFC 4648 decoders, anything else is not base64)
+	spellPaddedRight     = []string{"lf-padded", "crlf-leading", "prefix-lf-pin"}
+	spellPaddedWrong     = []string{"wrong-pin-lf-padded"}
+	spellPaddedMalformed = []string{"tab-padded", "nbsp-padded", "space-both", "mixed-padded", "prefix-space-pin", "space-before-prefix", "lf-before-prefix", "wrong-pin-tab-padded"}
+	spellWhitespace      = append(append(append(append([]string{}, spellBlank...), spellPaddedRight...), spellPaddedWrong...), spellPaddedMalformed...)
+	spellAll             = append(append(append(append([]string{"unpinned"}, spellRight...), spellWrong...), spellMalformed...), spellWhitespace...)
 )
+
+// whitespace is what strings.TrimSpace / unicode.IsSpace call white space.
+var whitespace = []string{" ", "\t", "\n", "\r", "\v", "\f", "\u00a0", "\u0085", "\u2003", "\u3000"}
+
+// blanks draws n white-space characters; with needOther at least one of them is
+// neither CR nor LF.
+func blanks(rng *mrand.Rand, n int, needOther bool) string {
+	var sb strings.Builder
+	other := -1
+	if needOther {
+		other = rng.IntN(n)
+	}
+	for i := 0; i < n; i++ {
+		c := whitespace[rng.IntN(len(whitespace))]
+		for i == other && (c == "\n" || c == "\r") {
+			c = whitespace[rng.IntN(len(whitespace))]
+		}
+		sb.WriteString(c)
+	}
+	return sb.String()
+}
+
+// whitespaceKind classifies a fingerprint string by its white space alone:
+// "blank" = configured but nothing except white space (after an optional
+// prefix), "padded" = white space at either end of what is left, "" = neither.
+func whitespaceKind(fp string) string {
+	rest := strings.TrimPrefix(fp, prefix)
+	switch {
+	case rest == "":
+		return ""
+	case strings.TrimSpace(rest) == "":
+		return "blank"
+	case strings.TrimSpace(fp) != fp || strings.TrimSpace(rest) != rest:
+		return "padded"
+	}
+	return ""
+}
 
 func b64(b []byte) string { return base64.StdEncoding.EncodeToString(b) }
 
@@ -423,6 +469,65 @@ func spell(class string, id *identity, all []*identity, rng *mrand.Rand) (fp str
 		return hex.EncodeToString(p), true
 	case "upper-prefix":
 		return "SHA256//" + b64(p), true
+	case "blank-space":
+		return " ", true
+	case "blank-tab":
+		return "\t", true
+	case "blank-lf":
+		return "\n", true
+	case "blank-cr":
+		return "\r", true
+	case "blank-crlf":
+		return "\r\n", true
+	case "blank-nbsp":
+		return "\u00a0", true
+	case "blank-spaces": // up to and beyond the length of a real pin
+		return strings.Repeat(" ", 2+rng.IntN(51)), true
+	case "blank-mixed":
+		return blanks(rng, 2+rng.IntN(9), false), true
+	case "prefix-space":
+		return prefix + " ", true
+	case "prefix-lf":
+		return prefix + "\n", true
+	case "prefix-mixed":
+		return prefix + blanks(rng, 1+rng.IntN(6), false), true
+	case "lf-padded":
+		return "\n" + b64(p) + "\n", true
+	case "crlf-leading":
+		return "\r\n" + b64(p), true
+	case "prefix-lf-pin":
+		return prefix + "\n" + b64(p), true
+	case "wrong-pin-lf-padded":
+		return []string{"\n", "\r\n", ""}[rng.IntN(3)] + b64(otherPin()) + "\n", true
+	case "tab-padded", "nbsp-padded":
+		ws := map[string]string{"tab-padded": "\t", "nbsp-padded": "\u00a0"}[class]
+		switch rng.IntN(3) {
+		case 0:
+			return ws + b64(p), true
+		case 1:
+			return b64(p) + ws, true
+		}
+		return ws + b64(p) + ws, true
+	case "space-both":
+		return " " + b64(p) + " ", true
+	case "mixed-padded":
+		l, t := rng.IntN(4), rng.IntN(4)
+		if l+t == 0 {
+			t = 1
+		}
+		// at least one character that is neither CR nor LF, at either end
+		if l > 0 && (t == 0 || rng.IntN(2) == 0) {
+			return blanks(rng, l, true) + b64(p) + blanks(rng, t, false), true
+		}
+		return blanks(rng, l, false) + b64(p) + blanks(rng, t, true), true
+	case "prefix-space-pin":
+		return prefix + " " + b64(p), true
+	case "space-before-prefix":
+		return " " + prefix + b64(p), true
+	case "lf-before-prefix":
+		return "\n" + prefix + b64(p), true
+	case "wrong-pin-tab-padded":
+		return "\t" + b64(otherPin()) + []string{"", "\t", " "}[rng.IntN(3)], true
 	case "single-slash-prefix":
 		return "sha256/" + b64(p), true
 	}
@@ -883,37 +988,9 @@ func tlsSummary(c *tls.Config) string {
 		c, c.InsecureSkipVerify, c.VerifyConnection != nil, c.VerifyPeerCertificate != nil, c.RootCAs, c.ServerName, c.NextProtos, c.MinVersion, c.MaxVersion, len(c.Certificates), c.GetClientCertificate != nil, ident(c.ClientSessionCache))
 }
 
-// takeSnap copies what the statement calls "default HTTP client settings".
-func takeSnap() map[string]string {
-	m := map[string]string{}
-	c := http.DefaultClient
-	m["DefaultClient"] = ident(c)
-	if c != nil {
-		m["DefaultClient.Transport"] = ident(c.Transport)
-		m["DefaultClient.CheckRedirect"] = ident(c.CheckRedirect)
-		m["DefaultClient.Jar"] = ident(c.Jar)
-		m["DefaultClient.Timeout"] = c.Timeout.String()
-	}
-	m["DefaultTransport"] = ident(http.DefaultTransport)
-	if t, ok := http.DefaultTransport.(*http.Transport); ok && t != nil {
-		m["DefaultTransport.TLSClientConfig"] = tlsSummary(t.TLSClientConfig)
-		m["DefaultTransport.DialTLSContext"] = ident(t.DialTLSContext)
-		m["DefaultTransport.DialTLS"] = ident(t.DialTLS)
-		m["DefaultTransport.DialContext"] = ident(t.DialContext)
-		m["DefaultTransport.Dial"] = ident(t.Dial)
-		m["DefaultTransport.Proxy"] = ident(t.Proxy)
-		m["DefaultTransport.ForceAttemptHTTP2"] = fmt.Sprint(t.ForceAttemptHTTP2)
-		m["DefaultTransport.TLSHandshakeTimeout"] = t.TLSHandshakeTimeout.String()
-		m["DefaultTransport.DisableKeepAlives"] = fmt.Sprint(t.DisableKeepAlives)
-		ks := make([]string, 0, len(t.TLSNextProto))
-		for k := range t.TLSNextProto {
-			ks = append(ks, k)
-		}
-		sort.Strings(ks)
-		m["DefaultTransport.TLSNextProto"] = fmt.Sprint(ks)
-	}
-	return m
-}
+// takeSnap copies what the statement calls "default HTTP client settings"
+// (procconf.go: every exported field, TLS configurations deeply).
+func (w *world) takeSnap() map[string]string { return snapClient(w.pc) }
 
 func snapDiff(a, b map[string]string) []string {
 	var d []string
@@ -1066,6 +1143,7 @@ type world struct {
 	cav    map[string][]*identity
 	pinned atomic.Int64   // well-formed pinned calls started in this process
 	cache  *countingCache // != nil: this process has given http.DefaultTransport a TLS client session cache
+	pc     *procConf      // what this process has put on http.DefaultClient before the first call (procconf.go)
 	mu     sync.Mutex
 	hist   []string
 	seen   map[string]int
@@ -1089,6 +1167,25 @@ func (w *world) history() []string {
 		h = h[len(h)-40:]
 	}
 	return append([]string(nil), h...)
+}
+
+// countSnap counts one before/after comparison and what it covered.
+func (w *world) countSnap(before map[string]string) {
+	r := w.r
+	r.Count("snapshot_checks", 1)
+	r.Count("snapshot_fields_compared", int64(len(before)))
+	if w.pc != nil && (w.pc.transport != nil || w.pc.inner != nil) {
+		n := 0
+		for k := range before {
+			if strings.HasPrefix(k, "DefaultClient.Transport.") || strings.HasPrefix(k, "DefaultClient.Transport(wrapper).inner.") {
+				n++
+			}
+		}
+		if n > 0 {
+			r.Count("snapshot_checks_covering_the_process_own_transport", 1)
+			r.Count("own_transport_fields_compared", int64(n))
+		}
+	}
 }
 
 // exec makes one call against an endpoint of its own and classifies what was
@@ -1121,7 +1218,7 @@ func (w *world) execOn(spec callSpec, snap bool, shared *endpoint) *callResult {
 	res.C2 = spec.c2(ep)
 	var before map[string]string
 	if snap {
-		before = takeSnap()
+		before = w.takeSnap()
 	}
 	res.PinnedBefore = w.pinned.Load()
 	if res.Exp.Pinned && res.Exp.Expect != "refuse-outright" {
@@ -1203,8 +1300,8 @@ func (w *world) execOn(spec callSpec, snap bool, shared *endpoint) *callResult {
 		res.Observed = "refused-after-bytes"
 	}
 	if snap {
-		r.Count("snapshot_checks", 1)
-		res.SnapDiff = snapDiff(before, takeSnap())
+		w.countSnap(before)
+		res.SnapDiff = snapDiff(before, w.takeSnap())
 	}
 	return res
 }
@@ -1213,6 +1310,13 @@ func (w *world) execOn(spec callSpec, snap bool, shared *endpoint) *callResult {
 // ("" = held or inconclusive).
 func (w *world) judge(res *callResult) (key, what string) {
 	key, what = w.judge0(res)
+	if key != "" && w.pc != nil && w.pc.name != "stock" {
+		if ownTransportConfig(w.pc.name) && !strings.HasPrefix(key, "malformed-") {
+			// (a malformed string is judged before any client is looked at)
+			key += ":own-default-client-transport"
+		}
+		what += fmt.Sprintf(" [process configuration %q: %s]", w.pc.name, clientConfigText[w.pc.name])
+	}
 	if key != "" && !res.Spec.lowerScheme() {
 		key += ":scheme-case"
 		what += fmt.Sprintf(" [C2 URL %q: scheme spelled %q]", res.C2, res.Spec.Scheme)
@@ -1248,6 +1352,54 @@ func (w *world) judge0(res *callResult) (key, what string) {
 		}
 	} else {
 		r.Count("url_scheme:https", 1)
+	}
+	wsKind := whitespaceKind(s.FP)
+	switch wsKind {
+	case "blank":
+		r.Count("whitespace_only_fingerprints", 1)
+		if w.ids[s.Ident].valid() {
+			// ordinary validation would let this call through: only the refusal of the string stops it
+			r.Count("whitespace_only_fingerprints_to_servers_passing_ordinary_validation", 1)
+		}
+		if e.Expect != "refuse-outright" {
+			r.Inconclusive(fmt.Sprintf("the oracle does not call the whitespace-only fingerprint %q malformed", s.FP))
+		}
+	case "padded":
+		r.Count("whitespace_padded_fingerprints", 1)
+		r.Count("whitespace_padded_fingerprints_expected_"+e.Expect, 1)
+		if w.ids[s.Ident].valid() {
+			r.Count("whitespace_padded_fingerprints_to_servers_passing_ordinary_validation", 1)
+			if e.MatchPos < 0 {
+				r.Count("whitespace_padded_mismatching_pins_to_servers_passing_ordinary_validation", 1)
+			}
+		}
+	}
+	if w.pc != nil {
+		cfg := w.pc.name
+		r.Count("calls_under_client_config:"+cfg, 1)
+		if ownTransportConfig(cfg) {
+			r.Count("calls_in_processes_with_own_default_client_transport", 1)
+			switch {
+			case e.Pinned && e.Expect == "accept":
+				r.Count("pinned_matching_calls_in_processes_with_own_default_client_transport", 1)
+			case e.Pinned && e.Expect == "refuse-handshake":
+				r.Count("pinned_mismatching_calls_in_processes_with_own_default_client_transport", 1)
+			case !e.Pinned && res.PinnedBefore > 0:
+				r.Count("unpinned_calls_after_pinned_calls_in_processes_with_own_default_client_transport", 1)
+				r.Count("unpinned_after_pinned_under:"+cfg, 1)
+				if e.Expect == "accept" && res.Observed == "accepted" {
+					r.Count("unpinned_valid_chain_accepted_after_pinned_calls_in_processes_with_own_default_client_transport", 1)
+				}
+				if e.Expect == "refuse-handshake" && res.Observed == "refused-at-handshake" {
+					r.Count("unpinned_invalid_chain_refused_after_pinned_calls_in_processes_with_own_default_client_transport", 1)
+				}
+			}
+		} else if cfg != "stock" {
+			r.Count("calls_in_processes_with_other_default_client_settings", 1)
+			if !e.Pinned && res.PinnedBefore > 0 {
+				r.Count("unpinned_calls_after_pinned_calls_in_processes_with_other_default_client_settings", 1)
+			}
+		}
 	}
 	r.Count("spelling:"+s.Spelling, 1)
 	r.Count("server_kind:"+s.Kind, 1)
@@ -1315,6 +1467,9 @@ func (w *world) judge0(res *callResult) (key, what string) {
 		after = "-after-pinned-call"
 	}
 	desc := fmt.Sprintf("%s(%s) fingerprint %q against a %s server presenting %d certificate(s)", s.Intent, s.Spelling, s.FP, s.Class, s.ChainLen)
+	if wsKind == "blank" {
+		desc = "whitespace-only " + desc
+	}
 	// "accepted" = the client went on past the handshake as far as it is concerned
 	// (Go returned nil, or the token made the round trip); a request that reached
 	// the server although Go then reported an error is refused-after-bytes.
@@ -1371,6 +1526,9 @@ func (w *world) judge0(res *callResult) (key, what string) {
 		default:
 			r.Count("refusals_held", 1)
 			r.Count("malformed_refused_with_zero_connections", 1)
+			if wsKind == "blank" {
+				r.Count("whitespace_only_fingerprints_refused_with_zero_connections", 1)
+			}
 		}
 	}
 	return "", ""
@@ -1442,6 +1600,16 @@ func (w *world) mkSpec(id *identity, intent, class string, rng *mrand.Rand) (cal
 }
 
 func intentOf(class string) string {
+	for _, c := range spellPaddedRight {
+		if c == class {
+			return "right"
+		}
+	}
+	for _, c := range spellPaddedWrong {
+		if c == class {
+			return "wrong"
+		}
+	}
 	for _, c := range spellRight {
 		if c == class {
 			return "right"
@@ -1463,15 +1631,25 @@ func (w *world) genCall(rng *mrand.Rand) callSpec {
 	for {
 		id := w.pickIdentity(rng)
 		var class string
-		switch x := rng.IntN(100); {
+		x := rng.IntN(100)
+		switch {
 		case x < 30:
 			class = spellRight[rng.IntN(len(spellRight))]
 		case x < 50:
 			class = spellWrong[rng.IntN(len(spellWrong))]
-		case x < 65:
+		case x < 63:
 			class = spellMalformed[rng.IntN(len(spellMalformed))]
+		case x < 67:
+			class = spellBlank[rng.IntN(len(spellBlank))]
+		case x < 70:
+			class = spellWhitespace[len(spellBlank)+rng.IntN(len(spellWhitespace)-len(spellBlank))]
 		default:
 			class = "unpinned"
+		}
+		if x >= 63 && x < 70 && rng.IntN(2) == 0 {
+			// white space: half of them against servers ordinary validation lets through,
+			// where "taken for no fingerprint" shows as an exchange
+			id = w.cav["ca-valid"][rng.IntN(len(w.cav["ca-valid"]))]
 		}
 		if s, ok := w.mkSpec(id, intentOf(class), class, rng); ok {
 			return s
@@ -1612,7 +1790,7 @@ func sampleOf(rs []*callResult) []map[string]any {
 
 func (w *world) runConc(engine string, index int, specs []callSpec, sample bool) {
 	r := w.r
-	before := takeSnap()
+	before := w.takeSnap()
 	results := make([]*callResult, len(specs))
 	start := make(chan struct{})
 	var wg sync.WaitGroup
@@ -1626,8 +1804,8 @@ func (w *world) runConc(engine string, index int, specs []callSpec, sample bool)
 	}
 	close(start)
 	wg.Wait()
-	r.Count("snapshot_checks", 1)
-	diff := snapDiff(before, takeSnap())
+	w.countSnap(before)
+	diff := snapDiff(before, w.takeSnap())
 	var sig []string
 	for _, s := range specs {
 		sig = append(sig, shape(s, oracle(w.ids[s.Ident], s.FP)))
@@ -1722,6 +1900,19 @@ func (w *world) caScript(j int) {
 	// the pin alone lets the first through, the pin alone stops the second
 	up := func(s callSpec) callSpec { s.Scheme = schemeVariants[rng.IntN(len(schemeVariants))]; return s }
 	script = append(script, up(mk("selfsigned", "exact")), up(mk("ca-valid", "other-server")), up(mk("ca-valid", "unpinned")), up(mk("selfsigned", "unpinned")), up(mk("selfsigned", "garbage")))
+	// white space for a fingerprint, against servers ordinary validation lets through
+	// (and one that it does not): three whitespace-only strings and three padded pins per script
+	for i, p := range rng.Perm(len(spellBlank))[:3] {
+		cl := "ca-valid"
+		if i == 2 && j%2 == 1 {
+			cl = "selfsigned"
+		}
+		script = append(script, mk(cl, spellBlank[p]))
+	}
+	padded := spellWhitespace[len(spellBlank):]
+	for _, p := range rng.Perm(len(padded))[:3] {
+		script = append(script, mk("ca-valid", padded[p]))
+	}
 	script = append(script, unpinnedRound()...)
 	n0 := r.Counter("calls")
 	w.runSeq("ca", j, script, j == 0)
@@ -1804,6 +1995,24 @@ func Child(args []string) int {
 			r.Count("child_processes_with_process_session_cache", 1)
 		}
 	}
+	cfgName := "stock"
+	if len(rest) > 5 && rest[5] != "" {
+		cfgName = rest[5]
+	}
+	if w.pc, err = installClientConfig(cfgName); err != nil {
+		r.Inconclusive("child cannot configure the process-wide client as " + cfgName + ": " + err.Error())
+		r.DumpChild(dump)
+		return 2
+	}
+	r.Count("child_processes_with_client_config:"+w.pc.name, 1)
+	if ownTransportConfig(w.pc.name) {
+		r.Count("child_processes_with_own_default_client_transport", 1)
+	}
+	if err := snapshotControl(w.pc.transport); err != nil {
+		r.Inconclusive("snapshot monitor failed its positive control: " + err.Error())
+	} else {
+		r.Count("snapshot_monitor_controls_passed", 1)
+	}
 	for i := start; i < start+count; i++ {
 		switch engine {
 		case "single":
@@ -1821,6 +2030,16 @@ func Child(args []string) int {
 			w.caScript(i)
 			w.observations(i)
 		}
+	}
+	if !w.pc.inPlace() {
+		// every single replacement has been reported by the snapshots already
+		r.Count("client_config_not_in_place_at_process_end", 1)
+	}
+	if w.pc.wrapper != nil {
+		r.Count("wrapper_round_trips", w.pc.wrapper.n.Load())
+	}
+	if w.pc.name == "own-proxy" {
+		r.Count("own_proxy_func_consultations", w.pc.proxyAsks.Load())
 	}
 	if w.cache != nil {
 		// on the unchanged library only un-pinned calls (which use the process-wide
@@ -1866,10 +2085,11 @@ type batch struct {
 	engine       string
 	start, count int
 	opt          string // "session-cache": the process gives http.DefaultTransport a TLS client session cache first
+	cfg          string // what the process puts on http.DefaultClient first (clientConfigs)
 }
 
 func Run(r *mon.Run) {
-	r.Rule = "every call to simpleshell.Go (EchoShell) is made in a child process against a listener created for that call alone, so that TCP accepts, client hellos, completed handshakes, application bytes, handler runs and echoed tokens are attributed to one call. Servers: raw crypto/tls listeners answering HTTP/1.1 by hand (log handshake-done / first-application-byte) and net/http servers (HTTP/2 or 1.1, full duplex, header flushed at once); TLS 1.2 or 1.3; identities = fresh P-256 keys, self-signed with chains of 1–3 certificates (extras are unrelated self-signed P-256/Ed25519 certificates), plus leaves signed by a harness CA that the children trust through SSL_CERT_FILE (valid / wrong SAN / expired / signed by an untrusted CA). Engines: single = every key × every spelling class (" + strconv.Itoa(len(spellAll)) + " classes: exact, prefixed, match at chain position 1/2, non-canonical padding bits, CR/LF, other server's pin, single-bit flips in either half, certificate hash, double prefix, no padding, URL alphabet, 31/33 bytes, hex, prefix only, garbage, spaces, …, no fingerprint), one key per process in PRNG order; seq = PRNG sequences of 2–6 calls (30% right, 20% wrong, 15% malformed, 35% un-pinned; 60% self-signed / 20% CA-valid / 20% CA-invalid servers), 10 sequences per process; conc = 2–8 such calls released together by a barrier, 5 sets per process, every deviating call repeated alone; same = 2–5 calls of one process against ONE listener (right then wrong pin, wrong-right-wrong, malformed and un-pinned in between; 7 patterns, 7 sequences per process), every second process of this engine first configured like an application that wants TLS session resumption (http.DefaultTransport.TLSClientConfig = &tls.Config{ClientSessionCache: LRU}, set before the transport's first use and before every snapshot; un-pinned calls keep ordinary validation), and after each sequence the harness's own TLS client shows that the listener does let a second connection resume a session (TLS 1.2 and 1.3); ca = a fixed script (un-pinned round over all identity classes, pinned calls, un-pinned round, concurrent mix, un-pinned round). In every engine one call in four spells the scheme of its C2 URL HTTPS://, Https:// or hTTpS:// (PRNG). Oracle of a call = function of its own presented chain and fingerprint string only: un-pinned ⇒ accept iff the leaf chains to the trusted CA, names 127.0.0.1 and is in date (by construction); pinned ⇒ strip one sha256// prefix, decode as RFC 4648 standard base64 (harness decoder cross-checked against encoding/base64), 32 bytes else refuse outright (no TCP connection may reach the server), accept iff equal to SHA-256 of the SubjectPublicKeyInfo of SOME presented certificate, else refuse with zero application bytes. Negative observations are read after a probe connection of the harness has been accepted behind the call's own connections and all server-side handlers have ended. Snapshot of http.DefaultClient / http.DefaultTransport fields before and after every call (around the whole set for concurrent calls). distinct_nontrivial = distinct call shapes (spelling class, identity class, chain length, match position, server kind, protocol, TLS version, expected outcome) plus distinct sequence / set shapes (the ordered resp. sorted list of call shapes)"
+	r.Rule = "every call to simpleshell.Go (EchoShell) is made in a child process against a listener created for that call alone, so that TCP accepts, client hellos, completed handshakes, application bytes, handler runs and echoed tokens are attributed to one call. Servers: raw crypto/tls listeners answering HTTP/1.1 by hand (log handshake-done / first-application-byte) and net/http servers (HTTP/2 or 1.1, full duplex, header flushed at once); TLS 1.2 or 1.3; identities = fresh P-256 keys, self-signed with chains of 1–3 certificates (extras are unrelated self-signed P-256/Ed25519 certificates), plus leaves signed by a harness CA that the children trust through SSL_CERT_FILE (valid / wrong SAN / expired / signed by an untrusted CA). Engines: single = every key × every spelling class (" + strconv.Itoa(len(spellAll)) + " classes: exact, prefixed, match at chain position 1/2, non-canonical padding bits, CR/LF, other server's pin, single-bit flips in either half, certificate hash, double prefix, no padding, URL alphabet, 31/33 bytes, hex, prefix only, garbage, spaces, …, no fingerprint; and white space: " + strconv.Itoa(len(spellBlank)) + " whitespace-only strings - one space / tab / LF / CR / CRLF / NBSP, 2–52 spaces, PRNG mixes of space, tab, CR, LF, VT, FF, NBSP, NEL, em and ideographic space, sha256// followed by nothing but such - and " + strconv.Itoa(len(spellWhitespace)-len(spellBlank)) + " forms of a pin with white space around it - LF / CRLF / tab / NBSP / space / PRNG mixes before, after or on both sides of this server's or another server's pin, between or before the prefix), one key per process in PRNG order; seq = PRNG sequences of 2–6 calls (30% right, 20% wrong, 13% malformed, 4% whitespace-only, 3% whitespace-padded, 30% un-pinned; 60% self-signed / 20% CA-valid / 20% CA-invalid servers, every second white-space call against a CA-valid server, where being taken for 'no fingerprint' shows as an exchange), 10 sequences per process; conc = 2–8 such calls released together by a barrier, 5 sets per process, every deviating call repeated alone; same = 2–5 calls of one process against ONE listener (right then wrong pin, wrong-right-wrong, malformed and un-pinned in between; 7 patterns, 7 sequences per process), every second process of this engine first configured like an application that wants TLS session resumption (http.DefaultTransport.TLSClientConfig = &tls.Config{ClientSessionCache: LRU}, set before the transport's first use and before every snapshot; un-pinned calls keep ordinary validation), and after each sequence the harness's own TLS client shows that the listener does let a second connection resume a session (TLS 1.2 and 1.3); ca = a fixed script (un-pinned round over all identity classes, pinned calls, three whitespace-only and three whitespace-padded fingerprints (PRNG choice) against CA-valid servers, un-pinned round, concurrent mix, un-pinned round), one script per process. PROCESS CONFIGURATION: before its first call a child process puts on http.DefaultClient what an embedding application may have put there - stock (Transport nil); an *http.Transport of its own: &http.Transport{}, a Clone of http.DefaultTransport, one with its own TLSClientConfig (RootCAs = the trusted CA, ServerName 127.0.0.1, MinVersion) and timeouts, one with a Proxy func returning nil, a Clone with DisableKeepAlives; a RoundTripper that is not an *http.Transport around a Clone; http.DefaultClient replaced by &http.Client{Timeout, Jar} without and with a transport of its own - a function of (engine, batch number): every second process of seq / conc / single and of same (those without session cache), and all ca processes but the first, are configured (" + strconv.Itoa(len(clientConfigs)) + " configurations); under every configuration ordinary validation is what the oracle assumes (roots = the harness CA, name = 127.0.0.1), so the oracle of a call stays a function of its own chain and fingerprint. In every engine one call in four spells the scheme of its C2 URL HTTPS://, Https:// or hTTpS:// (PRNG). Oracle of a call = function of its own presented chain and fingerprint string only: un-pinned ⇒ accept iff the leaf chains to the trusted CA, names 127.0.0.1 and is in date (by construction); pinned ⇒ strip one sha256// prefix, decode as RFC 4648 standard base64 (harness decoder cross-checked against encoding/base64), 32 bytes else refuse outright (no TCP connection may reach the server), accept iff equal to SHA-256 of the SubjectPublicKeyInfo of SOME presented certificate, else refuse with zero application bytes. Negative observations are read after a probe connection of the harness has been accepted behind the call's own connections and all server-side handlers have ended. Snapshot before and after every call (around the whole set for concurrent calls) of http.DefaultClient (identity, Transport, CheckRedirect, Jar, Timeout), of every exported field of http.DefaultTransport and of the *http.Transport the process put on http.DefaultClient (also inside the wrapper, also when it is no longer where the process put it) - scalars by value, functions / pointers / interfaces by identity, maps by identity and keys, slices by identity, length and elements - and of every exported field of their TLSClientConfig (deep: InsecureSkipVerify, VerifyConnection, RootCAs, ServerName, NextProtos, Min/MaxVersion, ClientSessionCache, …); in every process the monitor first passes a positive control on a throw-away clone (TLS configuration replaced, edited in place, ForceAttemptHTTP2 flipped: each must be reported). distinct_nontrivial = distinct call shapes (spelling class, identity class, chain length, match position, server kind, protocol, TLS version, expected outcome) plus distinct sequence / set shapes (the ordered resp. sorted list of call shapes)"
 	r.Assumptions = []string{
 		"keys are fresh per run (crypto/rand); the seed fixes the shape of every case (identity index, spelling class, bit position, server kind, order), not the key bytes",
 		"CR and LF inside a fingerprint are skipped as RFC 4648 decoders commonly do (encoding/base64 does); for such strings both 'refused outright' and 'treated as the stripped string' are accepted",
@@ -1877,6 +2097,8 @@ func Run(r *mon.Run) {
 		"on net/http servers 'application byte' is approximated by the connection becoming active (ConnState) or the handler running; the byte-exact monitor is the raw TLS server",
 		"the scheme of a URL is case-insensitive (RFC 3986 §3.1; net/url lower-cases it): HTTPS://host/io names the same resource as https://host/io, so the oracle of a call does not look at the spelling of the scheme",
 		"a TLS client session cache on http.DefaultTransport is process configuration the application is entitled to (it is set by the harness, in every second process of the same-server engine, before the first snapshot); the oracle of a call stays a function of its own chain and fingerprint — a session left behind by an earlier connection to the same server is exactly the kind of history the decision must not depend on",
+		"a fingerprint that is configured (non-empty) but consists of white space only - also after sha256// - is not 'no fingerprint' and is not the base64 of 32 bytes: it is malformed and must be refused outright (no connection). For a pin with white space around it the oracle follows the string alone, as for every other spelling: CR/LF are skipped (accept iff the rest matches; refusing outright tolerated), any other white space makes the string not base64, hence malformed; whatever the spelling, an exchange with a server none of whose keys the decoded string names is a violation",
+		"what an application puts on http.DefaultClient before calling the library (a transport of its own, a wrapper, another client with Timeout / Jar) is process configuration it is entitled to and exactly the 'default HTTP client settings' the statement says are left untouched: the harness installs it in the child before the first call and the first snapshot (with the transport's lazy HTTP/2 set-up already triggered), never changes it afterwards, and every configuration keeps ordinary validation as the oracle assumes (trusted roots = the harness CA, verified name 127.0.0.1); whether a pinned call goes through the application's transport / proxy function / wrapper is not judged (counted only: wrapper_round_trips, own_proxy_func_consultations)",
 		"replaying a case re-runs the whole batch that shared its process (≤10 sequences / 5 sets / one key), because the property is about process history",
 	}
 	nSelf, nCA := r.N(8, 64), r.N(3, 9)
@@ -1917,7 +2139,7 @@ func Run(r *mon.Run) {
 				}
 			}
 			if want {
-				bt := batch{engine: engine, start: s, count: n}
+				bt := batch{engine: engine, start: s, count: n, cfg: clientConfigFor(engine, s/per)}
 				if engine == "same" && (s/per)%2 == 1 { // every second process of the same-server engine
 					bt.opt = "session-cache"
 				}
@@ -1925,7 +2147,7 @@ func Run(r *mon.Run) {
 			}
 		}
 	}
-	add("ca", r.N(1, 8), 1)
+	add("ca", r.N(5, 18), 1)
 	add("conc", r.N(40, 1000), 5)
 	add("seq", r.N(80, 3000), 10)
 	add("same", r.N(56, 1400), 7)
@@ -1933,7 +2155,7 @@ func Run(r *mon.Run) {
 	var died atomic.Int64
 	mon.Parallel(len(batches), runtime.NumCPU(), func(i int) {
 		bt := batches[i]
-		res, err := r.RunChild("", "c13", 10*time.Minute, bt.engine, strconv.Itoa(bt.start), strconv.Itoa(bt.count), idPath, bt.opt)
+		res, err := r.RunChild("", "c13", 10*time.Minute, bt.engine, strconv.Itoa(bt.start), strconv.Itoa(bt.count), idPath, bt.opt, bt.cfg)
 		if err != nil {
 			died.Add(1)
 			st := string(res.Stderr)
@@ -1951,6 +2173,7 @@ func Run(r *mon.Run) {
 	r.Count("process_session_cache_stores", 0)
 	r.Count("process_session_cache_hits", 0)
 	r.Count("same_server_resumption_controls_failed", 0)
+	r.Count("client_config_not_in_place_at_process_end", 0)
 	r.Count("child_processes", int64(len(batches)))
 	r.Count("child_processes_died", died.Load())
 	r.Logf("%d child processes, %d calls", len(batches), r.Counter("calls"))
@@ -1983,7 +2206,7 @@ func Run(r *mon.Run) {
 	r.Floor("unpinned_calls_with_uppercase_scheme", int64(r.N(20, 500)))
 	r.Floor("concurrent_sets", int64(r.N(40, 1000)))
 	r.Floor("single_keys", int64(nSelf))
-	r.Floor("ca_child_calls", 25)
+	r.Floor("ca_child_calls", int64(r.N(150, 500)))
 	r.Floor("match_pos_0", int64(r.N(60, 1500)))
 	r.Floor("match_pos_1", int64(r.N(15, 400)))
 	r.Floor("match_pos_2", int64(r.N(4, 100)))
@@ -1992,4 +2215,35 @@ func Run(r *mon.Run) {
 	r.Floor("unpinned_calls_after_pinned_calls", int64(r.N(100, 3000)))
 	r.Floor("unpinned_valid_chain_accepted", int64(r.N(25, 700)))
 	r.Floor("oracle_decoder_agreements", int64(r.N(300, 8000)))
+	// white space for a fingerprint
+	r.Floor("whitespace_only_fingerprints", int64(r.N(80, 800)))
+	r.Floor("whitespace_only_fingerprints_refused_with_zero_connections", int64(r.N(80, 800)))
+	r.Floor("whitespace_only_fingerprints_to_servers_passing_ordinary_validation", int64(r.N(12, 120)))
+	r.Floor("whitespace_padded_fingerprints", int64(r.N(100, 1000)))
+	r.Floor("whitespace_padded_fingerprints_to_servers_passing_ordinary_validation", int64(r.N(12, 120)))
+	r.Floor("whitespace_padded_mismatching_pins_to_servers_passing_ordinary_validation", int64(r.N(6, 60)))
+	for _, c := range spellWhitespace {
+		r.Floor("spelling:"+c, int64(nSelf)/2)
+	}
+	// what the process put on http.DefaultClient
+	for _, c := range clientConfigs {
+		r.Floor("child_processes_with_client_config:"+c, 1)
+		r.Floor("calls_under_client_config:"+c, int64(r.N(20, 200)))
+		if ownTransportConfig(c) {
+			r.Floor("unpinned_after_pinned_under:"+c, int64(r.N(5, 50)))
+		}
+	}
+	r.Floor("child_processes_with_own_default_client_transport", int64(r.N(10, 150)))
+	r.Floor("calls_in_processes_with_own_default_client_transport", int64(r.N(300, 5000)))
+	r.Floor("pinned_matching_calls_in_processes_with_own_default_client_transport", int64(r.N(70, 1200)))
+	r.Floor("pinned_mismatching_calls_in_processes_with_own_default_client_transport", int64(r.N(50, 900)))
+	r.Floor("unpinned_calls_after_pinned_calls_in_processes_with_own_default_client_transport", int64(r.N(60, 1000)))
+	r.Floor("unpinned_valid_chain_accepted_after_pinned_calls_in_processes_with_own_default_client_transport", int64(r.N(15, 200)))
+	r.Floor("unpinned_invalid_chain_refused_after_pinned_calls_in_processes_with_own_default_client_transport", int64(r.N(40, 700)))
+	r.Floor("unpinned_calls_after_pinned_calls_in_processes_with_other_default_client_settings", int64(r.N(8, 100)))
+	r.Floor("snapshot_checks_covering_the_process_own_transport", int64(r.N(300, 5000)))
+	r.Floor("own_transport_fields_compared", int64(r.N(300, 5000))*40)
+	r.Floor("snapshot_monitor_controls_passed", int64(len(batches)))
+	r.Floor("wrapper_round_trips", int64(r.N(3, 30)))
+	r.Floor("own_proxy_func_consultations", int64(r.N(3, 30)))
 }
